@@ -8,6 +8,7 @@ import (
 	"time"
 
 	"Havoc/cmd/server"
+	"Havoc/pkg/handlers"
 	"Havoc/pkg/packager"
 
 	"verifmc/ev"
@@ -276,6 +277,84 @@ func runSchedules(r *ev.Run) (int64, int64) {
 	return exec, points
 }
 
+// Part 3b: an operator's replay races with the removal of a listener whose add event
+// lies in the middle of the retained log.  Every retained chat event was recorded
+// before the operator logged in and none is broadcast again, so each must arrive
+// exactly once and in order, wherever the pruning lands relative to the replay.
+func runReplayVsRemove(r *ev.Run) (int64, int64) {
+	bound := 2
+	if r.Thorough() {
+		bound = 3
+	}
+	outcomes := map[string]bool{}
+	t := explore.Tree{Bound: bound, Deadline: time.Now().Add(4 * time.Minute)}
+	t.Run(func(c *explore.Chooser) {
+		ts := seam.New(seam.Options{})
+		defer ts.Close()
+		chat := func(i int) {
+			ts.T.EventAppend(packager.Package{Head: packager.Head{Event: 4, User: "op2"}, Body: packager.Body{SubEvent: 1, Info: map[string]any{"User": "op2", "Message": fmt.Sprintf("c%d", i)}}})
+		}
+		chat(0)
+		if err := ts.T.ListenerStart(handlers.LISTENER_PIVOT_SMB, handlers.SMBConfig{Name: "L1", PipeName: "p"}); err != nil {
+			panic(err)
+		}
+		chat(2)
+		chat(3)
+		chat(4)
+		u := fake.NewWS("U")
+		ts.T.Clients.Store("U", &server.Client{GlobalIP: "10.1.1.1:5", Connection: u.Conn, Packager: packager.NewPackager()})
+		u.SendText(fmt.Sprintf(`{"Head":{"Event":1,"User":"op1"},"Body":{"SubEvent":3,"Info":{"User":"op1","Password":"%s"}}}`, digest("pw1")))
+		s := vsched.New(c, 20000, "EventsList", "Listeners", "sync.Mutex")
+		rmDone := false
+		s.Spawn("join-U", func() { ts.T.VerifHandleRequest("U") })
+		s.Spawn("remover", func() {
+			dispatch(ts.T, packager.Type.Listener.Type, packager.Type.Listener.Remove, map[string]any{"Name": "L1"})
+			rmDone = true
+		})
+		s.Spawn("closer", func() {
+			s.Block("closer waits for the removal", func() bool { return rmDone && idle(u.Raw) })
+			u.Raw.ClosePeer()
+		})
+		s.Run()
+		got, bad := tags(u)
+		var chats []string
+		for _, g := range got {
+			if strings.HasPrefix(g, "chat:") {
+				chats = append(chats, g)
+			}
+		}
+		obs := strings.Join(got, " ")
+		outcomes[obs] = true
+		detail := map[string]any{"choices": c.Choices(), "schedule_tail": tail(s.Trace, 40), "u_received": got}
+		switch {
+		case len(s.Panics) > 0:
+			r.Violate("replay-vs-remove/panic/"+ev.Normalize(s.Panics[0]), s.Panics[0], detail)
+		case s.Deadlock:
+			r.Violate("replay-vs-remove/deadlock", s.DeadlockWhy, detail)
+		case s.HorizonHit:
+			r.Violate("replay-vs-remove/horizon", "did not finish", detail)
+		case bad != "":
+			r.Violate("replay-vs-remove/frame", bad, detail)
+		case strings.Join(chats, " ") != "chat:c0 chat:c2 chat:c3 chat:c4":
+			r.Violate("replay-vs-remove/retained-events", fmt.Sprintf("the operator's replay delivered the retained chat events as %v, recorded were [c0 c2 c3 c4]", chats), detail)
+		}
+		if r.WantSample() && len(c.Choices()) > 5 && c.Choices()[4] != 0 {
+			r.Sample(map[string]any{"scenario": "replay vs listener removal", "choices": c.Choices(), "observed": obs})
+		}
+	})
+	if t.Err != nil {
+		r.Violate("harness/nondeterminism", t.Err.Error(), nil)
+	}
+	if t.Capped {
+		r.NotExhaustive("replay-vs-remove exploration stopped by the internal deadline")
+	}
+	for o := range outcomes {
+		r.Outcome("replay-vs-remove/" + o)
+	}
+	r.Extra["replay_vs_remove"] = map[string]any{"preemption_bound": bound, "executions": t.Executions, "choice_points": t.Points, "distinct_observations": len(outcomes)}
+	return t.Executions, t.Points
+}
+
 func idx(l []string, x string) int {
 	for i, y := range l {
 		if y == x {
@@ -304,8 +383,9 @@ func Run(r *ev.Run) {
 	}
 	fe, fp := runFaults(r)
 	se, sp := runSchedules(r)
-	r.Eval(int(fe + se))
-	r.AddStates(res.States+fp+sp, res.Transitions+fp+sp, res.Transitions+fe+se)
+	re, rp := runReplayVsRemove(r)
+	r.Eval(int(fe + se + re))
+	r.AddStates(res.States+fp+sp+rp, res.Transitions+fp+sp+rp, res.Transitions+fe+se+re)
 }
 
 func inBFS() bool { return parTag() != "" }
